@@ -14,7 +14,7 @@ from .common import Driver
 
 THEOREM_MODULES = ["PygacModel.Theorems.C10"]
 RULE = ("files of all four formats whose header data-set name carries every transfer-mode x platform-code pair (ASCII "
-        "and EBCDIC), header vs file-name fallback, +- archive header (same / unset / another name), supplied as path / pathlib / open file at a "
+        "and EBCDIC), header vs file-name fallback, +- archive header (same / unset / another name), supplied as path / bytes path / pathlib / open file at a "
         "non-zero position / BytesIO / gzip; plus random bytes, truncated files, truncated and bit-flipped gzip streams; "
         "after random histories of earlier selections. Judged: set of accepting readers, selected class, exception kind, "
         "file position. A case = (input, container, history); non-trivial = the input is accepted by some reader or is a "
@@ -130,6 +130,10 @@ def check_named(ctx, fmt, mode, plat, variant, drv, rng):
         with open(path, "wb") as fh:
             fh.write(data)
         arg = path
+    elif container == "bytespath":      # a bytes path (os.fsencode / os.listdir(b".")) is a legitimate path, too
+        with open(path, "wb") as fh:
+            fh.write(data)
+        arg = os.fsencode(path)
     elif container == "pathlib":
         with open(path, "wb") as fh:
             fh.write(data)
@@ -256,7 +260,9 @@ def run(ctx):
                 ("ascii", False, True, "plain", "gzip"), ("ascii", False, True, "plain", "fileobj"),
                 ("ascii", True, True, "name", "bytesio"), ("cp500", True, True, "plain", "bytesio"),
                 ("ascii", "unset", True, "plain", "path"), ("ascii", "unset", True, "plain", "bytesio"),
-                ("cp500", "unset", True, "plain", "gzip"), ("ascii", "other", True, "plain", "path")]
+                ("cp500", "unset", True, "plain", "gzip"), ("ascii", "other", True, "plain", "path"),
+                ("ascii", False, True, "plain", "bytespath"), ("ascii", False, False, "name", "bytespath"),
+                ("ascii", True, True, "name", "bytespath")]
         pairs = [(m, p) for m in list(MODES) + EXTRA_MODES for p in POD_IDS + KLM_IDS + EXTRA_IDS]
         for (m, p) in pairs:
             for fmt in CLASSES:
